@@ -1,5 +1,4 @@
-import CoapVerif.Model.Replay
-import CoapVerif.Spec.Replay
+import CoapVerif.Model.ReplayAbs
 /- Line-protocol driver for C15 (same ops as harness/replay.c).  -/
 -- DRIVER-OPS: replay => Coap.Driver.Replay.replayStep
 -- DRIVER-OPS: sender => Coap.Driver.Replay.senderStep
@@ -32,14 +31,6 @@ def parseAll {α} (f : String → Option α) : List String → Option (List α)
     let a ← f w
     let t ← parseAll f r
     pure (a :: t)
-
-def outOf : Verdict → ReplaySpec.Out
-  | .acc => .accept
-  | .chal => .challenge
-  | _ => .reject
-
-def reqOf (e : Ev) : ReplaySpec.Req :=
-  ⟨e.authentic, e.piv, match e.echo with | .none => .none | .good => .good | .bad => .bad⟩
 
 def showOut : ReplaySpec.Out → String
   | .accept => "acc" | .reject => "rej" | .challenge => "chal"
